@@ -376,3 +376,29 @@ M("C06-sum-excludes-first", {"C06": "C06.R2"}, ("main_loop.py", "    overall_log
 M("C06-multi-copy-wrong-field", {"C06": "C06.R4"}, ("front_end.py", "        overall_log_likelihood_mean=master_result.overall_log_likelihood_mean,", "        overall_log_likelihood_mean=master_result.overall_log_likelihood_median,"))
 M("C06-twin-neq-guard", {"C06": None, "C05": None}, ("main_loop.py", "        if cluster_id == -1:\n            # these points did not participate in clustering\n            continue\n        ll = likelihood.point_log_likelihood(\n            stacked_training_data[point_id],\n            model.clusters[cluster_id],\n            model.arguments.window_size,\n            num_data_series\n        )\n        cluster_log_likelihood[cluster_id].append(ll)\n",
   "        if cluster_id != -1:\n            ll = likelihood.point_log_likelihood(\n                stacked_training_data[point_id],\n                model.clusters[cluster_id],\n                model.arguments.window_size,\n                num_data_series\n            )\n            cluster_log_likelihood[cluster_id].append(ll)\n"))
+
+# ---------------------------------------------------------------- C08
+_CMf = "cluster_maintenance.py"
+M("C08-retire-nonstrict", {"C08": "C08.R3"}, (_CMf, "            if potential_donor_size < 3 * min_cluster_size:", "            if potential_donor_size <= 3 * min_cluster_size:"))
+M("C08-retire-2m", {"C08": "C08.R3"}, (_CMf, "            if potential_donor_size < 3 * min_cluster_size:", "            if potential_donor_size < 2 * min_cluster_size:"))
+M("C08-eligible-m", {"C08": "C08.R3"}, (_CMf, "        if potential_donor_size >= 2 * min_cluster_size:", "        if potential_donor_size >= min_cluster_size:"))
+M("C08-eligible-strict", {"C08": "C08.R3"}, (_CMf, "        if potential_donor_size >= 2 * min_cluster_size:", "        if potential_donor_size > 2 * min_cluster_size:"))
+M("C08-retire-pops-tail", {"C08": "C08.R3"}, (_CMf, "                remaining_donors.pop(0)\n            return", "                remaining_donors.pop()\n            return"))
+M("C08-donate-m-minus-one", {"C08": ["C08.R3", "C08.R5"]}, (_CMf, "                                          model.arguments.min_cluster_size)\n    donated_point_ids", "                                          model.arguments.min_cluster_size - 1)\n    donated_point_ids"))
+M("C08-pool-filter-m", {"C08": "C08.R3"}, (_CMf, "                           if model.clusters[i].size >= 2 * model.arguments.min_cluster_size]", "                           if model.clusters[i].size >= model.arguments.min_cluster_size]"))
+M("C08-recipient-lt-one", {"C08": "C08.R2"}, (_CMf, "        if cluster.size < 2:\n            clusters_to_repopulate", "        if cluster.size < 1:\n            clusters_to_repopulate"))
+M("C08-recipient-lt-m", {"C08": "C08.R2"}, (_CMf, "        if cluster.size < 2:\n            clusters_to_repopulate", "        if cluster.size < model.arguments.min_cluster_size:\n            clusters_to_repopulate"))
+M("C08-copy-only-recipients", {"C08": "C08.R1"}, (_CMf, "    new_model.clusters = [cluster.deep_copy() for cluster in model.clusters]", "    new_model.clusters = [cluster.deep_copy() if cluster_id in clusters_to_repopulate else cluster\n                          for (cluster_id, cluster) in enumerate(model.clusters)]"))
+M("C08-no-cluster-copy", {"C08": "C08.R1"}, (_CMf, "    new_model.clusters = [cluster.deep_copy() for cluster in model.clusters]\n", ""))
+M("C08-labels-to-input-state", {"C08": ["C08.R1", "C08.R6"]}, (_CMf, "        new_model.point_labels = updated_point_labels\n", "        model.point_labels = updated_point_labels\n        new_model = model\n"))
+M("C08-rank-ascending", {"C08": "C08.R4"}, (_CMf, "        potential_donor_ids, key=get_cluster_spread, reverse=True)", "        potential_donor_ids, key=get_cluster_spread)"))
+M("C08-rank-by-empirical", {"C08": "C08.R4"}, (_CMf, "    cluster_spread = [np.linalg.norm(cluster.computed_covariance)", "    cluster_spread = [np.linalg.norm(cluster.empirical_covariance)"))
+M("C08-rank-by-size", {"C08": "C08.R4"}, (_CMf, "    def get_cluster_spread(i):\n        return cluster_spread[i]", "    def get_cluster_spread(i):\n        return model.clusters[i].size"))
+M("C08-move-edits-input-labels", {"C08": "C08.R5"}, (_CMf, "    new_point_labels = list(model.point_labels)", "    new_point_labels = model.point_labels"))
+M("C08-move-first-m", {"C08": "C08.R5", "C14": None}, (_CMf, "    donated_point_indices = random.sample(range(len(available_point_ids)),\n                                          model.arguments.min_cluster_size)", "    donated_point_indices = list(range(model.arguments.min_cluster_size + 1))"))
+M("C08-move-with-replacement", {"C08": "C08.R5"}, (_CMf, "    donated_point_indices = random.sample(range(len(available_point_ids)),\n                                          model.arguments.min_cluster_size)", "    donated_point_indices = random.choices(range(len(available_point_ids)),\n                                          k=model.arguments.min_cluster_size)"))
+M("C08-move-label-donor", {"C08": "C08.R5"}, (_CMf, "        new_point_labels[point_id] = recipient_cluster_id", "        new_point_labels[point_id] = donor_cluster_id + 1"))
+M("C08-search-on-stale-model", {"C08": "C08.R6"}, (_CMf, "        (donor_cluster_id, remaining_donors) = _find_point_donor(\n            new_model, remaining_donors)", "        (donor_cluster_id, remaining_donors) = _find_point_donor(\n            model, remaining_donors)"))
+M("C08-commit-after-loop", {"C08": "C08.R6"}, (_CMf, "            new_model, donor_cluster_id, empty_cluster_id)\n        new_model.point_labels = updated_point_labels\n", "            new_model, donor_cluster_id, empty_cluster_id)\n    new_model.point_labels = updated_point_labels\n"))
+M("C08-pool-reset-each-round", {"C08": "C08.R6"}, (_CMf, "            new_model, remaining_donors)\n        LOGGER.info(\"Repopulating", "            new_model, donor_cluster_ids)\n        LOGGER.info(\"Repopulating"))
+M("C08-twin-copy-copy", {"C08": None}, (_CMf, "    new_point_labels = list(model.point_labels)", "    new_point_labels = model.point_labels[:]"))
